@@ -237,6 +237,7 @@ package index
 //@   modifies heldR, heldW, Snapshot.refs
 //@   ensures heldR == old(heldR) && heldW == old(heldW)
 //@   at call addRef: assert heldR[addr(s, rootLock)] || heldW[addr(s, rootLock)]
+//@   effect {C06} [ASSUMED representation invariant of a published snapshot] result != nil && result == s.root && (forall k int :: (0 <= k && k < len(result.segment)) ==> result.segment[k] != nil)
 
 // ---------------------------------------------------------------------------
 // C04: a published snapshot is immutable
@@ -255,6 +256,16 @@ package index
 //@   immutchk
 //@   under_construction newSegmentDeleted
 //@   requires {C04} [bitmap created here] ownfresh(newSegmentDeleted)
+//@   modifies mapof(s.old), bmHas, itRem
+//@   requires {C06} s != nil && segSnapNow != nil && newSegmentDeleted != nil
+//@   ensures {C06} [going-away-iff-it-was-merged] result <==> old(has(s.old, segmentID))
+//@   ensures {C06} [nothing-already-carried-is-lost] forall v uint32 :: old(bmHas)[newSegmentDeleted][v] ==> bmHas[newSegmentDeleted][v]
+//@   ensures {C06} [deletes-since-the-merge-started-are-carried-over] (old(has(s.old, segmentID)) && old(s.old[segmentID]) != nil && segSnapNow.deleted != nil && newSegmentDeleted != segSnapNow.deleted && newSegmentDeleted != old(s.old[segmentID].deleted)) ==> (forall d uint32 :: (bmHas[segSnapNow.deleted][d] && (old(s.old[segmentID].deleted) == nil || !bmHas[old(s.old[segmentID].deleted)][d])) ==> bmHas[newSegmentDeleted][uint32(s.oldNewDocNums[segmentID][d])])
+//@   loop 1
+//@     invariant {C06} forall v uint32 :: old(bmHas)[newSegmentDeleted][v] ==> bmHas[newSegmentDeleted][v]
+//@     invariant {C06} forall b ref :: b != newSegmentDeleted ==> bmHas[b] == old(bmHas)[b]
+//@     invariant {C06} [handed-out-so-far-are-carried] newSegmentDeleted != deletedSince ==> forall d uint32 :: (bmHas[deletedSince][d] && !itRem[iref(deletedSinceItr)][d]) ==> bmHas[newSegmentDeleted][uint32(s.oldNewDocNums[segmentID][d])]
+//@     invariant {C06} forall d uint32 :: itRem[iref(deletedSinceItr)][d] ==> bmHas[deletedSince][d]
 
 // ---------------------------------------------------------------------------
 // C02 / C14 / C11: what is on disk when, and when a batch may be acknowledged
@@ -477,3 +488,56 @@ package index
 //@   requires s != nil && s.directory != nil && s.segPlugin != nil && s.segPlugin.Load != nil
 //@   modifies *
 //@   ensures [handles-released] openHandles == old(openHandles)
+
+// ---------------------------------------------------------------------------
+// C06: introducing a merge keeps every other segment as it is and hands the merged segment the
+// deletes that happened while it was being built
+// ---------------------------------------------------------------------------
+//@ func Writer.introduceMerge(nextMerge, introduceSnapshotEpoch)
+//@   props C06
+//@   heap_wf
+//@   requires s != nil && nextMerge != nil
+//@   modifies *
+//@   at call replaceRoot: assert [merged-segment-gets-the-collected-deletes] skipped || (len(newSnapshot.segment) > 0 && newSnapshot.segment[len(newSnapshot.segment) - 1].deleted == newSegmentDeleted && newSnapshot.segment[len(newSnapshot.segment) - 1].segment == nextMerge.new && newSnapshot.segment[len(newSnapshot.segment) - 1].id == nextMerge.id)
+//@   at call AddRef: assert [a-merged-segment-does-not-stay-beside-its-merge] !segmentIsGoingAway
+//@   at call AddRef: assert [a-segment-that-stays-is-taken-over-unchanged] len(newSnapshot.segment) > 0 && newSnapshot.segment[len(newSnapshot.segment) - 1] != nil && newSnapshot.segment[len(newSnapshot.segment) - 1].id == root.segment[i].id && newSnapshot.segment[len(newSnapshot.segment) - 1].segment == root.segment[i].segment && newSnapshot.segment[len(newSnapshot.segment) - 1].deleted == root.segment[i].deleted
+//@   at call replaceRoot: assert [new-root-carries-the-new-epoch] newSnapshot.epoch == introduceSnapshotEpoch
+//@   loop 1
+//@     invariant fresh(newSegmentDeleted) && newSegmentDeleted != nil && root != nil && rangeindex < len(root.segment)
+//@     invariant forall k int :: (0 <= k && k < len(root.segment)) ==> root.segment[k] != nil
+
+// swapping in persisted copies: same segments (by id), same deletes, same offsets, position by position
+//@ func Writer.introducePersist(persist, introduceSnapshotEpoch)
+//@   props C06
+//@   heap_wf
+//@   requires s != nil && persist != nil
+//@   modifies *
+//@   at call replaceRoot: assert [new-root-carries-the-new-epoch] newSnapshot.epoch == introduceSnapshotEpoch
+//@   at call replaceRoot: assert [same-segments-same-deletes-position-by-position] len(newSnapshot.segment) == len(root.segment) && (forall k int :: (0 <= k && k < len(root.segment)) ==> (newSnapshot.segment[k] != nil && newSnapshot.segment[k].id == root.segment[k].id && newSnapshot.segment[k].deleted == root.segment[k].deleted))
+//@   loop 1
+//@     invariant root != nil && newIndexSnapshot != nil && fresh(newIndexSnapshot) && fresh(base(newIndexSnapshot.segment)) && len(newIndexSnapshot.segment) == len(root.segment) && rangeindex < len(root.segment)
+//@     invariant forall k int :: (0 <= k && k < len(root.segment)) ==> root.segment[k] != nil
+//@     invariant [same-segments-same-deletes-so-far] forall k int :: (0 <= k && k <= rangeindex) ==> (newIndexSnapshot.segment[k] != nil && newIndexSnapshot.segment[k].id == root.segment[k].id && newIndexSnapshot.segment[k].deleted == root.segment[k].deleted)
+
+// ---------------------------------------------------------------------------
+// C01: introducing a batch deletes what the batch obsoletes in every existing segment and changes
+// nothing else; the batch's own segment is appended last
+// ---------------------------------------------------------------------------
+// assumed of every segment implementation: a successful lookup hands back a bitmap
+//@ func github.com/blugelabs/bluge_segment_api.Segment.DocsMatchingTerms(recv, terms) (r, err)
+//@   interface
+//@   props C01
+//@   pure
+//@   ensures err == nil ==> r != nil
+
+//@ func Writer.introduceSegment(next, introduceSnapshotEpoch) (err)
+//@   props C01
+//@   requires s != nil && next != nil
+//@   requires [obsoletes-hold-bitmaps] forall k uint64 :: has(next.obsoletes, k) ==> next.obsoletes[k] != nil
+//@   modifies *
+//@   at call AddRef: assert [an-existing-segment-is-kept] len(newSnapshot.segment) > 0 && newSnapshot.segment[len(newSnapshot.segment) - 1] == newss && newss != nil && newss.id == root.segment[i].id && newss.segment == root.segment[i].segment
+//@   at call AddRef: assert [nothing-is-deleted-but-what-was-or-what-the-batch-obsoletes] forall v uint32 :: (newss.deleted != nil && bmHas[newss.deleted][v]) ==> ((root.segment[i].deleted != nil && bmHas[root.segment[i].deleted][v]) || bmHas[delta][v])
+//@   at call AddRef: assert [earlier-deletes-are-kept] forall v uint32 :: (root.segment[i].deleted != nil && bmHas[root.segment[i].deleted][v]) ==> (newss.deleted != nil && bmHas[newss.deleted][v])
+//@   at call AddRef: assert [the-batch-deletes-are-applied] forall v uint32 :: bmHas[delta][v] ==> (newss.deleted != nil && bmHas[newss.deleted][v])
+//@   at call replaceRoot: assert [new-root-carries-the-new-epoch] newSnapshot.epoch == introduceSnapshotEpoch
+//@   at call replaceRoot: assert [the-batch-segment-comes-last] next.data != nil ==> (len(newSnapshot.segment) > 0 && newSnapshot.segment[len(newSnapshot.segment) - 1].id == next.id && newSnapshot.segment[len(newSnapshot.segment) - 1].segment == next.data && newSnapshot.segment[len(newSnapshot.segment) - 1].deleted == nil)
